@@ -32,7 +32,7 @@ def _blank(name, stage, refs=(), **kw):
 def with_motif(draw, W):
     """Appends, to a third of the workflows, one of the wiring motifs that random DAGs rarely contain."""
     kind = draw(st.sampled_from(["none", "none", "none", "none", "agg-over-replicas", "observer-two-subjects",
-                                 "shutdown-chain"]))
+                                 "shutdown-chain", "agg-plain-shutdown"]))
     if kind == "none":
         return W
     comps = W["components"]
@@ -54,6 +54,22 @@ def with_motif(draw, W):
         stage = max(stage, comps[p]["stage"])
         extra = [q for q in range(len(comps)) if q != p and comps[q]["stage"] <= stage and draw(st.integers(0, 3)) == 0][:1]
         comps.append(_blank(free[0], stage, refs=sorted([p] + extra), aggregate=True))
+    elif kind == "agg-plain-shutdown":
+        # an aggregator with two (or three) non-replicated inputs of which exactly one exits with a shutdownOn reason
+        s = last
+        n0 = len(comps)
+        reason = draw(st.sampled_from(["KnownIssue", "SystemIssue", "UnknownIssue"]))
+        comps.append(_blank(free[0], s, shutdownOn=[reason], restartHookOn=[]))
+        comps.append(_blank(free[1], s))
+        extra = [n0, n0 + 1]
+        if draw(st.booleans()):
+            comps.append(_blank(free[2], s))
+            extra.append(n0 + 2)
+        agg_stage = draw(st.sampled_from([s, min(s + 1, 2)]))
+        comps.append(_blank(free[3], agg_stage, refs=extra, aggregate=True))
+        if draw(st.booleans()):
+            comps.append(_blank(free[4], agg_stage, refs=[n0 + 1]))
+        W["hint"] = {"component": n0, "reason": reason}
     elif kind == "shutdown-chain":
         # head (exits with a shutdownOn reason) -> c1 -> c2 -> c3 [-> c4]: shutdown has to propagate down the chain
         s = last
@@ -112,7 +128,13 @@ def runtime_cases(draw, max_components=5, max_stages=3, fail_rate=6):
         for ref in sorted(nodes):
             if nodes[ref]["idx"] == hint["component"]:
                 script[ref] = [hint["reason"]]
-    return {"W": W, "script": script}
+    # a fifth of the cases: some nodes have a memoization hit (they become final without ever being launched)
+    memo = []
+    if draw(st.integers(0, 4)) == 0:
+        cand = [r for r in sorted(nodes) if not nodes[r]["repeat"] and r not in script]
+        if cand:
+            memo = draw(st.lists(st.sampled_from(cand), min_size=1, max_size=2, unique=True))
+    return {"W": W, "script": script, "memo": sorted(memo)}
 
 
 # ----------------------------------------------------------------------------------------------------------
@@ -150,12 +172,12 @@ def intrinsic_outcome(c: dict, reasons: List[str]):
         return (SHUTDOWN if reason in c["shutdownOn"] else FAILED), launches
 
 
-def rule_states(W, script, force=None) -> Dict[str, str]:
+def rule_states(W, script, force=None, memo=()) -> Dict[str, str]:
     nodes, preds = wfgen.expand(W)
     intrinsic = {}
     for ref, nd in nodes.items():
         c = W["components"][nd["idx"]]
-        if nd["repeat"]:
+        if nd["repeat"] or ref in memo:
             intrinsic[ref] = FINISHED
         else:
             intrinsic[ref] = intrinsic_outcome(c, script.get(ref, []))[0]
@@ -199,6 +221,8 @@ class LaunchMonitor:
         if nd is None:
             self.violations.append(("unknown-node-launched", "launched %s which the model does not know" % ref))
             return
+        if ref in drv.memoized:
+            self.violations.append(("memoized-component-launched", "%s has a memoization hit but its task was launched" % ref))
         running = [r for r, c in drv.components.items() if drv.backend.launches.get(r, 0) > 0
                    and r != ref and c.state not in FINAL]
         if running:
@@ -206,6 +230,8 @@ class LaunchMonitor:
         snap = {}
         for p in self.preds[ref]:
             st_p = drv.comp_state(p)
+            if st_p in FINAL and drv.finish_requested.get(p) in FINAL:
+                st_p = drv.finish_requested[p]
             snap[p] = st_p
             same_stage_observer = bool(nd["repeat"]) and self.nodes[p]["stage"] == nd["stage"]
             if same_stage_observer:
@@ -235,9 +261,14 @@ class LaunchMonitor:
             return
         for p in self.preds[ref]:
             st_p = drv.comp_state(p)
+            if st_p in FINAL and drv.finish_requested.get(p) in FINAL:
+                # the final state the producer was actually given (a later relabelling must not hide it)
+                st_p = drv.finish_requested[p]
             same_stage_observer = bool(nd["repeat"]) and self.nodes[p]["stage"] == nd["stage"]
             if same_stage_observer:
-                if st_p not in FINAL and drv.run_called.get(p, 0) == 0:
+                # a producer with a memoization hit is never started: the controller has already asked it to finish
+                if st_p not in FINAL and drv.run_called.get(p, 0) == 0 and not (
+                        p in drv.memoized and p in drv.finish_requested):
                     self.violations.append(("observer-started-before-subject-started",
                                             "%s (repeating) was started while same-stage producer %s had not been "
                                             "started and is '%s'" % (ref, p, st_p)))
@@ -275,7 +306,7 @@ def run_case(case, ctx: Ctx, chooser: Chooser, max_decisions=6000):
         check_graph_matches_model(exp, W)
         mon = LaunchMonitor(W)
         drv = driver.Driver(exp, chooser, case["script"], on_launch=mon, max_decisions=max_decisions,
-                            on_component_run=mon.on_component_run)
+                            on_component_run=mon.on_component_run, memoized=case.get("memo", ()))
         res = drv.run()
         return res, mon
     finally:
